@@ -119,7 +119,19 @@ func (in *injector) renameFields(pool []string) bool {
 
 // Inject applies one random injection to p and reports it; ok=false if the
 // program has no place for the chosen injection (the caller draws again).
-func Inject(r *rng.R, p *Program) (Injection, bool) {
+func Inject(r *rng.R, p *Program) (Injection, bool) { return InjectAt(r, p, -1) }
+
+// NumInjections is the number of injections InjectAt knows.
+var NumInjections = func() int {
+	InjectAt(rng.New(1), &Program{}, -2) // builds the table only
+	return injectionCount
+}()
+
+var injectionCount int
+
+// InjectAt applies injection number idx (any number is reduced modulo the number of
+// injections; idx < 0 draws one at random).
+func InjectAt(r *rng.R, p *Program, idx int) (Injection, bool) {
 	in := &injector{r: r, p: p}
 	type inj struct {
 		name, class string
@@ -358,6 +370,44 @@ func Inject(r *rng.R, p *Program) (Injection, bool) {
 			}
 			return "", false
 		}},
+		{"same-named-exceptions-from-two-files", "A", func() (string, bool) {
+			// two distinct exception types with one Thrift name, defined in two files, thrown by
+			// one function: different Go types (pkg.SharedExc and SharedExc), no clash
+			for _, f := range p.Files {
+				if len(f.Includes) == 0 {
+					continue
+				}
+				g := f.Includes[r.Intn(len(f.Includes))]
+				if g.Base() == f.Base() {
+					continue
+				}
+				mk := func(file *File) *Def {
+					return &Def{File: file, Name: "SharedExc", Kind: Exception, Index: 1 << 20, Fields: []*Field{{ID: 1, Name: "why", Req: Optional, Type: &Type{K: String}}}}
+				}
+				here, there := mk(f), mk(g)
+				f.Defs, g.Defs = append(f.Defs, here), append(g.Defs, there)
+				fn := &Func{Name: "throwsBoth", Ret: &Type{K: I32}, Throws: []*Field{
+					{ID: 1, Name: "local", Req: Unspecified, Type: &Type{K: Named, Ref: here}},
+					{ID: 2, Name: "included", Req: Unspecified, Type: &Type{K: Named, Ref: there}}}}
+				f.Services = append(f.Services, &Service{File: f, Name: "SharedExcThrower", Funcs: []*Func{fn}})
+				return "a function throwing SharedExc of its own file and SharedExc of an included file", true
+			}
+			return "", false
+		}},
+		{"enum-alias-with-the-label-of-its-original", "B", func() (string, bool) {
+			f := p.Files[r.Intn(len(p.Files))]
+			d := &Def{File: f, Name: "AliasLabel", Kind: Enum, Index: 1 << 20, Items: []*EnumItem{
+				{Name: "LOW", Value: 1, Explicit: true}, {Name: "MEDIUM", Value: 2, Explicit: true}, {Name: "NORMAL", Value: 2, Explicit: true, Label: "MEDIUM"}}}
+			f.Defs = append(f.Defs, d)
+			return "enum item aliasing another item's value and carrying its label", true
+		}},
+		{"enum-alias-with-distinct-label", "A", func() (string, bool) {
+			f := p.Files[r.Intn(len(p.Files))]
+			d := &Def{File: f, Name: "AliasOwnLabel", Kind: Enum, Index: 1 << 20, Items: []*EnumItem{
+				{Name: "LOW", Value: 1, Explicit: true, Label: "low"}, {Name: "MEDIUM", Value: 2, Explicit: true}, {Name: "NORMAL", Value: 2, Explicit: true, Label: "normal"}, {Name: "HIGH", Value: 1, Explicit: true}}}
+			f.Defs = append(f.Defs, d)
+			return "enum items aliasing values with labels of their own", true
+		}},
 		{"args-same-go-name", "B", func() (string, bool) {
 			for _, fn := range in.funcs() {
 				if len(fn.Args) >= 2 {
@@ -449,7 +499,14 @@ func Inject(r *rng.R, p *Program) (Injection, bool) {
 			return "struct-literal default of a struct that is mutually recursive with the enclosing struct", true
 		}},
 	}
-	c := list[r.Intn(len(list))]
+	injectionCount = len(list)
+	if idx < -1 {
+		return Injection{}, false
+	}
+	if idx == -1 {
+		idx = r.Intn(len(list))
+	}
+	c := list[idx%len(list)]
 	what, ok := c.f()
 	if !ok {
 		return Injection{}, false
